@@ -46,9 +46,18 @@ class Parser::ParserImpl {
   /// @}
 
   void getNextNonCommentToken() {
-    do {
+    for (;;) {
       lexer.lex(tok);
-    } while (tok.tokenKind == Token::Kind::Comment);
+      if (tok.tokenKind != Token::Kind::Comment)
+        return;
+      // Ninja drops a line that holds only a comment together with its newline,
+      // so such a line never terminates a rule/build/pool block.
+      if (tok.column == 0) {
+        lexer.lex(tok);
+        if (tok.tokenKind != Token::Kind::Newline)
+          return;
+      }
+    }
   }
 
   /// Consume the current 'peek token' and lex the next one.
